@@ -136,10 +136,10 @@ Proof.
     + inversion H; subst. apply frameA_refl.
 Qed.
 
-Lemma admit_frame : forall cfg orc k id h w s r s' vs,
-  admit cfg orc k id h w s = (r, s', vs) -> frameA s s'.
+Lemma admission_frame : forall cfg orc k id h w s r s' vs,
+  admission cfg orc k id h w s = (r, s', vs) -> frameA s s'.
 Proof.
-  intros cfg orc k id h w s r s' vs H. unfold admit in H.
+  intros cfg orc k id h w s r s' vs H. unfold admission in H.
   destruct (c_max cfg <? w); [inversion H; subst; apply frameA_refl|].
   destruct (w <=? c_max cfg - used s).
   { pose proof (weights_add_frame cfg k id h w s) as Hf.
@@ -251,10 +251,10 @@ Proof.
     split; [exact HI'|]. eapply mono_trans; eassumption.
 Qed.
 
-(** what [admit] returns: either the id was charged on top of a state that satisfies the invariant, or the state
+(** what [admission] returns: either the id was charged on top of a state that satisfies the invariant, or the state
     itself satisfies it *)
-Lemma admit_inv : forall cfg orc k id h w s r s1 vs, Inv cfg s ->
-  admit cfg orc k id h w s = (r, s1, vs) ->
+Lemma admission_inv : forall cfg orc k id h w s r s1 vs, Inv cfg s ->
+  admission cfg orc k id h w s = (r, s1, vs) ->
   match r with
   | AdStatus Accepted => exists sm, Inv cfg sm /\ mono s sm /\ frameA s sm /\ weights_add cfg k id h w sm = Ok s1
   | AdStatus _ => Inv cfg s1 /\ mono s s1
@@ -262,7 +262,7 @@ Lemma admit_inv : forall cfg orc k id h w s r s1 vs, Inv cfg s ->
   | AdInadmissible _ => True
   end.
 Proof.
-  intros cfg orc k id h w s r s1 vs HI H. unfold admit in H.
+  intros cfg orc k id h w s r s1 vs HI H. unfold admission in H.
   destruct (c_max cfg <? w); [inversion H; subst; split; [exact HI|apply mono_refl]|].
   destruct (w <=? c_max cfg - used s).
   { destruct (weights_add cfg k id h w s) as [s2|site s2|why] eqn:Hadd; inversion H; subst; [|exact I|exact I].
